@@ -99,6 +99,15 @@ def contract_labels(key, fname=None):
 
 # library functions the crate does not call today but whose contract in prelude/ is a complete functional specification
 FULLY_SPECIFIED = {'length_of_length', 'trim_start_matches', 'strip_prefix', 'map_or', 'try_from', 'write_str', 'encode_string'}
+# std functions for which the installed vstd proves a functional characterisation (probed with tools/probes/: each name was
+# called in a one-line function whose postcondition states the std documentation, and Verus discharged it)
+FULLY_SPECIFIED |= {
+    'map', 'and_then', 'ok_or_else', 'map_err', 'unwrap_or_else', 'unwrap_or', 'ok', 'err', 'ok_or', 'is_some', 'is_none', 'is_ok',
+    'is_err', 'unwrap', 'expect', 'unwrap_or_default', 'take', 'checked_add', 'checked_sub', 'checked_mul', 'saturating_add',
+    'saturating_sub', 'wrapping_add', 'wrapping_sub', 'len', 'push', 'pop', 'insert', 'remove', 'is_empty', 'clear', 'as_slice',
+    'extend_from_slice', 'clone', 'with_capacity', 'new', 'swap', 'split_at', 'get', 'contains_key', 'to_string', 'to_owned',
+    'as_str', 'copy_from_slice', 'from', 'Some', 'Ok', 'Err', 'None',
+}
 
 
 def novelty(xlog):
@@ -110,6 +119,8 @@ def novelty(xlog):
     except Exception:
         return {}
     now = xlog.get('shapes', {})
+    # every function of the dependency stand-ins carries its complete assumed contract (prelude/standin.rs)
+    standin_fns = set(re.findall(r'\bfn (\w+)', open(os.path.join(D.VERIF, 'prelude', 'standin.rs')).read()))
     crate_names = set(k.split('::')[-1] for k in list(now) + list(sb))
     used_anywhere = set()
     for v in sb.values():
@@ -119,7 +130,7 @@ def novelty(xlog):
     for k, sh in now.items():
         base = sb.get(k)
         why = []
-        new_calls = sorted(set(sh.get('calls', [])) - used_anywhere - crate_names - FULLY_SPECIFIED)
+        new_calls = sorted(set(sh.get('calls', [])) - used_anywhere - crate_names - FULLY_SPECIFIED - standin_fns)
         if new_calls:
             why.append('calls library functions the unchanged crate never calls: ' + ', '.join(new_calls))
         new_helpers = sorted(set(sh.get('calls', [])) & new_fns)
@@ -443,8 +454,8 @@ def check(prop, tier, seed):
         if labs:
             props = props_of_labels(labs)
         elif f['kind'] == 'semantic' and (any(m in f['message'] for m in C03_PANIC_MSGS)
-                                          or ('precondition not satisfied' in f['message'] and clause_outside
-                                              and not (clause_fn and gi.module_of(f['clause_line']).startswith('code')))):
+                                          or ('precondition not satisfied' in f['message']
+                                              and (f.get('clause_ext') or (clause_outside and not (clause_fn and gi.module_of(f['clause_line']).startswith('code')))))):
             # overflow, division by zero, out-of-range index, non-termination, or the precondition of a LIBRARY function
             # (unwrap/expect/index/slice/advance/copy_from_slice: a panic): property C03 and nothing else
             props = ['C03']
